@@ -257,10 +257,10 @@ class Explorer:
             self.level = lvl
             del self.sigs[lvl:]
 
-    def push(self, c):
+    def push(self, c, sig=None):
         self.solver.push(); self.level += 1
         self.solver.add(c)
-        self.sigs.append(c.hash())
+        self.sigs.append(sig)
 
     def explore(self, body, limit_paths=None):
         """body(world) runs one path and returns anything; yields (world, result_or_exception)."""
@@ -314,6 +314,7 @@ class World:
         """cond: python bool or z3 Bool -> python bool (forks)."""
         if cond is True or cond is False: return cond
         if not is_sym(cond): return bool(cond)
+        raw_sig = cond.hash()      # structural hash of the condition as built (simplify may reorder arguments)
         cond = z3.simplify(cond)
         if z3.is_true(cond): return True
         if z3.is_false(cond): return False
@@ -324,10 +325,10 @@ class World:
             c = cond if d else z3.Not(cond)
             if k < len(self.prefix) - 1:
                 # already on the solver from the previous path (sanity: same constraint)
-                if k >= len(ex.sigs) or ex.sigs[k] != c.hash():
+                if k >= len(ex.sigs) or ex.sigs[k] != (raw_sig, d):
                     raise Unsupported("non-deterministic re-execution (constraint mismatch at decision %d)" % k)
             else:
-                ex.push(c)
+                ex.push(c, (raw_sig, d))
                 self.model = None
         else:
             m = self.get_model()
@@ -336,7 +337,7 @@ class World:
             if ex.check(other):
                 self.pending.append(self.taken + [(0 if cur else 1, tag)])
             d = 1 if cur else 0
-            ex.push(cond if cur else z3.Not(cond))
+            ex.push(cond if cur else z3.Not(cond), (raw_sig, d))
         self.taken.append((d, tag))
         self.pc.append(cond if d else z3.Not(cond))
         return bool(d)
@@ -733,6 +734,22 @@ class Interp:
                 ty, tr, meth = m.group(1), m.group(2), m.group(3)
                 if tr in ("Fn", "FnMut", "FnOnce") and meth in ("call", "call_mut", "call_once"):
                     return self.call_closure(args[0], args[1])
+                if tr == "Into" and meth == "into":
+                    # blanket impl: <T as Into<U>>::into(x) = <U as From<T>>::from(x); U is only in the unstripped path
+                    mm = re.search(r" as Into<(.+)>>::into$", callee)
+                    if mm:
+                        tgt = norm_type(strip_generics(mm.group(1)))
+                        for k2 in (f"<{tgt} as From<{norm_type(ty)}>>::from", f"<{tgt} as From>::from"):
+                            s = self.S.get(k2)
+                            if s is not None: return s(self, *args)
+                        f = self.P.lookup(f"<{tgt} as From>::from")
+                        if f is not None: return self.run(f, args)
+                        if tgt == "Cow":
+                            v = args[0]
+                            return Enum("Cow", "Owned", 1, [v]) if type(v) is VecObj else Enum("Cow", "Borrowed", 0, [v])
+                        rt = self.runtime_type(args[0])
+                        if rt == tgt or (tgt == "String" and rt == "String"): return args[0]
+                        raise Unsupported(f"Into<{tgt}> from {rt}")
                 # normalised type
                 k2 = f"<{norm_type(ty)} as {tr.split('::')[-1]}>::{meth}"
                 s = self.S.get(k2)
